@@ -652,6 +652,11 @@ impl<'tcx> Mono<'tcx> {
                 _ => t.boxed_ty(),
             }
         };
+        let ptr_kind = match src.kind() {
+            ty::Ref(..) => "ref",
+            ty::RawPtr(..) => "raw",
+            _ => "box",
+        };
         let (s, d) = match (pointee(src), pointee(dst)) {
             (Some(s), Some(d)) => (s, d),
             _ => {
@@ -664,7 +669,7 @@ impl<'tcx> Mono<'tcx> {
         let (s, d) = tcx.struct_lockstep_tails_for_codegen(s, d, TypingEnv::fully_monomorphized());
         let ty::Dynamic(preds, ..) = d.kind() else { return None };
         if !self.vt_seen.insert((s, d)) {
-            return Some(J::O(vec![("vtable", J::S(tys(s))), ("dyn", J::S(tys(d)))]));
+            return Some(J::O(vec![("vtable", J::S(tys(s))), ("dyn", J::S(tys(d))), ("ptr", J::s(ptr_kind))]));
         }
         let mut methods = Vec::new();
         if let Some(principal) = preds.principal() {
@@ -699,7 +704,7 @@ impl<'tcx> Mono<'tcx> {
             ("methods", J::A(methods)),
             ("drop", dropid),
         ]));
-        Some(J::O(vec![("vtable", J::S(tys(s))), ("dyn", J::S(tys(d)))]))
+        Some(J::O(vec![("vtable", J::S(tys(s))), ("dyn", J::S(tys(d))), ("ptr", J::s(ptr_kind))]))
     }
 
     fn walk(&mut self, idx: usize) -> J {
